@@ -30,9 +30,9 @@ P = "TopSearch.Props.C01."
 REQUIRED = [P + n for n in ["C01_barrier_from_matching", "C01_ts_offer", "C01_minimum_offer", "C01_prune_one",
                             "C01_prune_preserves", "C01_step", "C01_inv", "C01_inv_current",
                             "C01_record_from_search", "C01_landscape_consistent", "C01_minimum_from_minimiser",
-                            "goodBH_of_minimiser", "C01_minima_from_global_optimisation"]] + \
+                            "goodBH_of_minimiser", "C01_minima_from_global_optimisation", "inBox_of_stdPerturb"]] + \
     ["TopSearch.Props.C04.C04_run_post", "TopSearch.Props.C08.C08_stored_subset_outputs",
-     "TopSearch.Props.C10.C10_from_contract"]
+     "TopSearch.Props.C10.C10_from_contract", "TopSearch.Props.C20.C20_std_step"]
 RULE = ("cases = public pipeline calls (get_minima, get_transition_states with both schemes and bounds pruning, "
         "reconverge_minima, reconverge_landscape) in random order and repetition on real surfaces; after each call the "
         "logged offer stream is replayed through the model and the property's clauses are evaluated on the real "
